@@ -108,7 +108,10 @@ func buildCalls(seed uint64, env *psEnv) []callSpec {
 		b := b
 		add(fmt.Sprintf("type1.Read#%d", i), func() string { d, err := runEntry(env, kType1, bytes.NewReader(b)); return d + fmt.Sprintf("/%v", err) })
 	}
-	add("afm.Read", func() string { d, err := runEntry(env, kAFM, bytes.NewReader(afmBytes)); return d + fmt.Sprintf("/%v", err) })
+	add("afm.Read", func() string {
+		d, err := runEntry(env, kAFM, bytes.NewReader(afmBytes))
+		return d + fmt.Sprintf("/%v", err)
+	})
 	for _, fm := range allFormats {
 		fm := fm
 		add("Font.Write/"+fm.name, func() string {
